@@ -87,6 +87,9 @@ pub fn guarded<T, F: FnOnce() -> T>(f: F) -> Result<T, String> {
 }
 
 pub fn quiet_panics() {
+    if std::env::var("VH_PANIC").is_ok() {
+        return;
+    }
     std::panic::set_hook(Box::new(|_| {}));
 }
 
